@@ -89,6 +89,7 @@ class Hist:
         self.was_deleted = set()   # ids of objects seen entering the deleted state
         self.violated = False
         self.new_in_txn = set()   # ids of objects added as new since the last full commit / rollback
+        self.block_n = False      # see pick_cls()
         self.life = {}   # id(obj) -> [(op index, lifecycle event)]
         self.pk_switched = set()   # ids of objects whose primary key the harness changed
 
@@ -257,7 +258,11 @@ def build_ops(h):
     classes = [P, C, N, K]
 
     def pick_cls():
-        return rng.choice([P, P, C, N, N, K])
+        # while block_n is set (a primary-key-switched N object was expunged inside the open
+        # transaction) rows of N are not loaded again: a second object for such a row is
+        # displaced when rollback restores the first one's key - the application detached the
+        # owner of a row it had modified, outside the property
+        return rng.choice([P, P, C, K] if h.block_n else [P, P, C, N, N, K])
 
     def persistent(cls=None, tokens=False):
         # objects loaded under an identity token alias rows of the *same* database here
@@ -399,7 +404,7 @@ def build_ops(h):
         return None
 
     def merge():
-        cls = rng.choice([P, N, K, C])
+        cls = rng.choice([P, K, C] if h.block_n else [P, N, K, C])
         kind = rng.choice(["transient_existing", "transient_new", "detached", "detached_noload"])
         if kind.startswith("detached"):
             cands = h.of(cls, lambda st: st.detached and not st.modified)
@@ -476,6 +481,8 @@ def build_ops(h):
             return None
         o = rng.choice(objs)
         s.expunge(o)
+        if id(o) in h.pk_switched:
+            h.block_n = True
         return ("expunge", type(o).__name__)
 
     def readd():
@@ -570,13 +577,13 @@ def build_ops(h):
 
     def commit():
         s.commit()
-        h.new_in_txn.clear()
+        h.new_in_txn.clear(); h.block_n = False
         h.nested.clear()
         return ("commit",)
 
     def rollback():
         s.rollback()
-        h.new_in_txn.clear()
+        h.new_in_txn.clear(); h.block_n = False
         h.nested.clear()
         return ("rollback",)
 
@@ -600,11 +607,13 @@ def build_ops(h):
         if rng.random() < 0.5:
             if any(id(o) in h.new_in_txn for o in persistent(tokens=True)):
                 return None
+            if any(id(o) in h.pk_switched for o in persistent(N)):
+                h.block_n = True
             s.expunge_all()
             return ("expunge_all",)
         s.close()
         h.nested.clear()
-        h.new_in_txn.clear()
+        h.new_in_txn.clear(); h.block_n = False
         return ("close",)
 
     table = [
@@ -669,7 +678,7 @@ def one_history(ctx, rig, variant, length, expected_exc):
                 names.append(fn.__name__ + "!")
                 if not s.is_active:
                     s.rollback()
-                    h.new_in_txn.clear()
+                    h.new_in_txn.clear(); h.block_n = False
                     h.nested.clear()
                     h.trace.append(("rollback-after-error",))
             h.check()
